@@ -586,3 +586,21 @@ macro_rules! prim_types {
         $m! { [$($x)*] u8, u16, u32, u64, u128, usize, i8, i16, i32, i64, i128, isize }
     };
 }
+
+/// value-form shifts by every primitive integer type
+pub trait ShiftPrims:
+    Int
+    + Shl<u8, Output = Self> + Shl<u16, Output = Self> + Shl<u64, Output = Self> + Shl<u128, Output = Self> + Shl<usize, Output = Self>
+    + Shl<i8, Output = Self> + Shl<i16, Output = Self> + Shl<i32, Output = Self> + Shl<i64, Output = Self> + Shl<i128, Output = Self> + Shl<isize, Output = Self>
+    + Shr<u8, Output = Self> + Shr<u16, Output = Self> + Shr<u64, Output = Self> + Shr<u128, Output = Self> + Shr<usize, Output = Self>
+    + Shr<i8, Output = Self> + Shr<i16, Output = Self> + Shr<i32, Output = Self> + Shr<i64, Output = Self> + Shr<i128, Output = Self> + Shr<isize, Output = Self>
+{
+}
+impl<T> ShiftPrims for T where
+    T: Int
+        + Shl<u8, Output = T> + Shl<u16, Output = T> + Shl<u64, Output = T> + Shl<u128, Output = T> + Shl<usize, Output = T>
+        + Shl<i8, Output = T> + Shl<i16, Output = T> + Shl<i32, Output = T> + Shl<i64, Output = T> + Shl<i128, Output = T> + Shl<isize, Output = T>
+        + Shr<u8, Output = T> + Shr<u16, Output = T> + Shr<u64, Output = T> + Shr<u128, Output = T> + Shr<usize, Output = T>
+        + Shr<i8, Output = T> + Shr<i16, Output = T> + Shr<i32, Output = T> + Shr<i64, Output = T> + Shr<i128, Output = T> + Shr<isize, Output = T>
+{
+}
